@@ -4,6 +4,7 @@ import (
 	"bytes"
 	"fmt"
 	"image"
+	"image/color"
 	"image/draw"
 	"strings"
 
@@ -118,7 +119,7 @@ func C15(tier string) {
 	sizes := [][2]int{{3, 2}, {1, 4}, {4, 1}, {0, 0}, {5, 4}, {2, 7}, {64, 16}, {256, 3}}
 	origins := []image.Point{{0, 0}, {-2, -3}, {5, 7}, {-7, 2}}
 	pars := func(rows int) []int { return []int{1, 2, 3, 7, 16, rows + 5} }
-	r.Rule(fmt.Sprintf("complete product: 3 helpers x %d image types (every concrete type of package image incl. 6 YCbCr subsamplings, NYCbCrA, paletted, CMYK, alpha, plus an interface-only wrapper) x %d sizes x %d origins x {whole image, sub-image of a larger parent} x 3 byte patterns x parallelism {1,2,3,7,16,rows+5}; thorough adds a 4096x4096 4:4:4 YCbCr holding all 2^24 (Y,Cb,Cr) triples and 256x256 NRGBA/RGBA/RGBA64/NRGBA64 images holding all 8-bit (channel, alpha) pairs; distinct = configurations with a non-empty input not already of the target type", len(imgKinds), len(sizes), len(origins)))
+	r.Rule(fmt.Sprintf("complete product: 3 helpers x %d image types (every concrete type of package image incl. 6 YCbCr subsamplings, NYCbCrA, paletted, CMYK, alpha, plus an interface-only wrapper) x %d sizes x %d origins x {whole image, sub-image of a larger parent} x 3 byte patterns x parallelism {1,2,3,7,16,rows+5}; call sequences (convert, modify pixels and palette in place, convert again, convert another image sharing the palette, earlier result unchanged); thorough adds a 4096x4096 4:4:4 YCbCr holding all 2^24 (Y,Cb,Cr) triples and 256x256 NRGBA/RGBA/RGBA64/NRGBA64 images holding all 8-bit (channel, alpha) pairs; distinct = configurations with a non-empty input not already of the target type", len(imgKinds), len(sizes), len(origins)))
 	r.Assume("image.Uniform (unbounded) is not a possible input of an allocating helper and is not generated; subsampled YCbCr/NYCbCrA images with negative coordinates are skipped because package image itself mis-indexes them")
 
 	type job struct {
@@ -227,6 +228,58 @@ func C15(tier string) {
 					r.Eval(1)
 					r.DistinctN(1)
 				}
+			}
+		}
+	}
+	// sequences: convert, change the input in place (pixels and palette), convert
+	// again; convert a second image sharing the palette slice; the first result
+	// must stay what it was (results may not alias each other or cached state)
+	for hi := range c15Helpers {
+		h := &c15Helpers[hi]
+		for _, kind := range imgKinds {
+			for _, par := range []int{1, 3} {
+				img, planes := newImage(kind, image.Rect(1, 2, 8, 7), 1, 4)
+				c15One(r, h, kind, img, planes, 1, par, "sequence step 1")
+				var first []uint8
+				var firstImg image.Image
+				if kind != h.target {
+					firstImg = h.conv(img, par)
+					p, _ := h.pix(firstImg)
+					first = append([]uint8(nil), p...)
+				}
+				for _, pl := range planes() {
+					for i := range pl {
+						pl[i] ^= 0x5A
+						if kind == "Paletted" {
+							pl[i] %= 16
+						}
+					}
+				}
+				var pal color.Palette
+				if pi, ok := img.(*image.Paletted); ok {
+					pal = pi.Palette
+					for i := range pal {
+						pal[i] = color.NRGBA{R: uint8(200 - i), G: uint8(i * 9), B: uint8(50 + i), A: uint8(255 - i*3)}
+					}
+				}
+				c15One(r, h, kind, img, planes, 1, par, "sequence step 2: same image object after its pixels (and palette) were changed in place")
+				if pal != nil {
+					img2 := image.NewPaletted(image.Rect(0, 0, 5, 4), pal)
+					for i := range img2.Pix {
+						img2.Pix[i] = uint8(i % 16)
+					}
+					c15One(r, h, kind, img2, func() [][]uint8 { return [][]uint8{img2.Pix} }, 0, par, "sequence step 3: another image sharing the palette slice")
+					pal[3] = color.NRGBA{R: 1, G: 2, B: 3, A: 255}
+					c15One(r, h, kind, img2, func() [][]uint8 { return [][]uint8{img2.Pix} }, 0, par, "sequence step 4: after one palette entry changed")
+				}
+				if firstImg != nil {
+					p, _ := h.pix(firstImg)
+					if !bytes.Equal(p, first) {
+						r.Violate(h.name+"/"+kind+"/result-aliased", fmt.Sprintf("%s: the image returned by an earlier call changed after the input was modified and converted again (%s)", h.name, kind), nil, nil)
+					}
+				}
+				r.Eval(3)
+				r.DistinctN(2)
 			}
 		}
 	}
